@@ -196,4 +196,26 @@ theorem fillConf_getD (ids : List Nat) (hnd : ids.Nodup) : ∀ (d : List (Nat ×
           have hb : (n' == n) = false := by simpa using hnn
           simp [List.lookup, hb, hji]
 
+/-- `lookup` in `zip keys values` with distinct keys gives the value standing at the key's position -/
+theorem lookup_zip_nodup : ∀ (ids : List Nat) (vals : List P3), ids.Nodup → ids.length = vals.length →
+    (ids.map fun n => ((ids.zip vals).lookup n).getD origin) = vals := by
+  intro ids
+  induction ids with
+  | nil => intro vals _ h; cases vals with | nil => rfl | cons _ _ => simp at h
+  | cons n rest ih =>
+    intro vals hnd hl
+    cases vals with
+    | nil => simp at hl
+    | cons v vs =>
+      have hn := List.nodup_cons.mp hnd
+      simp only [List.zip_cons_cons, List.map_cons, List.lookup, beq_self_eq_true, Option.getD_some, List.cons.injEq, true_and]
+      rw [← ih vs hn.2 (by simpa using hl)]
+      apply List.map_congr_left
+      intro n' hn'
+      have : (n' == n) = false := by
+        simp only [beq_eq_false_iff_ne, ne_eq]
+        intro e; subst e; exact hn.1 hn'
+      simp only [List.lookup, this]
+      rw [ih vs hn.2 (by simpa using hl)]
+
 end ChythonModel.Proofs.C20
